@@ -10,7 +10,7 @@ Failed(gs) == {g[1] : g \in {x \in gs : ~x[2]}}
 
 ObsProf(f) == [u2f |-> [present |-> f.u2f.present, enabled |-> f.u2f.enabled, name |-> f.u2f.name],
                totp |-> [present |-> f.totp.present, enabled |-> f.totp.enabled, name |-> f.totp.name],
-               pending |-> f.pending, regchal |-> f.regchal, wchal |-> f.wchal, totpUsed |-> f.totpUsed, botp |-> f.botp]
+               pending |-> f.pending, regchal |-> f.regchal, wchal |-> f.wchal, totpUsed |-> f.totpUsed, botp |-> f.botp, chal |-> f.chal]
 ObsRes(e) == [q \in 1..Len(e.ops) |-> e.results[q]]
 Oks(e, op) == Cardinality({q \in 1..Len(e.ops) : e.ops[q] = op /\ e.results[q] = "ok"})
 Count(e, op) == Cardinality({q \in 1..Len(e.ops) : e.ops[q] = op})
@@ -22,7 +22,8 @@ Guards(e) ==
                           /\ ((Acked(e, "u2f_disable") /\ Count(e, "u2f_enable") = 0) => ~(f.u2f.present /\ f.u2f.enabled))
                           /\ ((Acked(e, "totp_disable") /\ Count(e, "totp_enable") = 0) => ~(f.totp.present /\ f.totp.enabled))>>,
      <<"G_C16_OneSpend", /\ Oks(e, "totp_auth") <= 1
-                         /\ Oks(e, "botp_use") <= 1>>,
+                         /\ Oks(e, "botp_use") <= 1
+                         /\ Oks(e, "u2f_auth") + Oks(e, "webauthn_auth") <= 1>>,
      <<"G_C16_NoRace", ~e.race>>, <<"G_C10_NoPanic", ~e.panic>>}
 TInit == Init /\ l = 1 /\ viol = {}
 \* several operators inject the right passphrase at once: as if one after another, exactly one of them unseals
